@@ -137,6 +137,8 @@ func verifL_FailoverQ(n int, generic bool, faults bool, sameKey bool, env bool, 
 	if maxStaleSet {
 		maxStale = 100
 	}
+	// env: the caller's context carries a deadline, or is cancel-only (context.WithCancel)
+	cancelOnly := env && verifChoice("callerCtxCancelOnly", 2) == 1
 	// ghost state
 	var inBuild, builds, okBuilds [verifL2Keys]int
 	var finishedOK, finishedErr [4]bool
@@ -234,7 +236,7 @@ func verifL_FailoverQ(n int, generic bool, faults bool, sameKey bool, env bool, 
 				cancelled := false
 				var ctx context.Context = context.Background()
 				if env {
-					ctx = verifCallerCtx{Context: ctx, cancelled: &cancelled, done: nil}
+					ctx = verifCallerCtx{Context: ctx, cancelled: &cancelled, done: nil, noDeadline: cancelOnly}
 				}
 				v, err := f.Get(ctx, key, func(ctx context.Context) (interface{}, error) {
 					r, e := builder(ctx, t, k)
@@ -283,7 +285,7 @@ func verifL_FailoverQ(n int, generic bool, faults bool, sameKey bool, env bool, 
 				cancelled := false
 				var ctx context.Context = context.Background()
 				if env {
-					ctx = verifCallerCtx{Context: ctx, cancelled: &cancelled, done: nil}
+					ctx = verifCallerCtx{Context: ctx, cancelled: &cancelled, done: nil, noDeadline: cancelOnly}
 				}
 				v, err := f.Get(ctx, key, func(ctx context.Context) (int, error) {
 					return builder(ctx, t, k)
